@@ -14,7 +14,7 @@ import (
 
 var c06Decl = &GenCfg{Depth: 3, Fanout: 2, MaxOpts: 3, MaxGroups: 2, NestGroups: 2, Kinds: []Kind{KBool, KString, KInt, KStringSlice, KBoolSlice, KMapSS, KFuncS, KFunc0, KFloat64, KIntPtr, KTri, KUpper},
 	Pos: true, PosPct: 55, PosReq: true, Ns: true, Req: 40, OptArg: true, Aliases: true, SubOpt: 35, NonASCII: true, Defaults: true, Env: true, EnvNs: true, Hidden: true, InCode: 25, ViaAdd: 5, FlagChoice: true, StaticTwins: true,
-	ParserOpts: []flags.Options{flags.HelpFlag, flags.PassDoubleDash, flags.PassAfterNonOption}}
+	ParserOpts: []flags.Options{flags.HelpFlag, flags.PassDoubleDash, flags.PassAfterNonOption, flags.IgnoreUnknown}}
 
 var c06Argv = &ArgvCfg{MaxItems: 2, WOpt: 55, WCluster: 14, WCmd: 4, WPlain: 10, WTerm: 5, WUnknown: 0, WJunk: 0, WRepeat: 10, BadVal: 0, Quote: 4}
 
